@@ -123,37 +123,42 @@ std::string handle(const std::string& op, const Args& a) {
     PROG("negative",    view::negative(x0))
     PROG("matmul",      view::matmul(x0, x1))
     PROG("concatenate", view::concatenate(x0, x1, AXIS))
+#elif C14_GROUP == 2
     PROG("where",       view::where(x0, x1, x2))
     PROG("vstack",      view::vstack(x0, x1))
     GRAPH("neg_add",    view::negative(view::add(x0, x1)))
     PROG("sum_mul",     view::reduce_add(view::multiply(x0, x1), AXIS, DROP))
     GRAPH("tr_add",     view::transpose(view::add(x0, x1), AXES))
     PROG("cumsum_tr",   view::accumulate_add(view::transpose(x0, AXES), AXIS))
-#elif C14_GROUP == 2
+#elif C14_GROUP == 3
     PROG("add_tr",      view::add(view::transpose(x0, AXES), x1))
     GRAPH("add_mul2",   view::add(x0, view::multiply(x1, x2)))
     GRAPH("neg_add_mul",view::negative(view::add(view::multiply(x0, x1), x2)))
     PROG("tr_neg_add",  view::transpose(view::negative(view::add(x0, x1)), AXES))
     PROG("sum_tr_mul",  view::reduce_add(view::transpose(view::multiply(x0, x1), AXES), AXIS, DROP))
+#elif C14_GROUP == 4
     PROG("flip_tile_tr",view::flip(view::tile(view::transpose(x0, AXES), nats(a,"reps")), AXIS))
     PROG("neg_sub_max", view::negative(view::subtract(x0, view::reduce_maximum(x0, AXIS, KEEP))))
     GRAPH("add_mm",     view::add(view::multiply(x0, x1), view::multiply(x2, x3)))
     GRAPH("add_ms",     view::add(view::multiply(x0, x1), view::subtract(x2, x3)))
-#elif C14_GROUP == 3
+#elif C14_GROUP == 5
     // depth 4
     GRAPH("d4_neg_tr_neg_add", view::negative(view::transpose(view::negative(view::add(x0, x1)), AXES)))
     PROG("d4_sum_tr_neg_mul",  view::reduce_add(view::transpose(view::negative(view::multiply(x0, x1)), AXES), AXIS, DROP))
     PROG("d4_flip_tile_tr_neg",view::flip(view::tile(view::transpose(view::negative(x0), AXES), nats(a,"reps")), AXIS))
     PROG("d4_cumsum_neg_tr_add", view::accumulate_add(view::negative(view::transpose(view::add(x0, x1), AXES)), AXIS))
-    // repeated leaf: negative(add(multiply(x0,x1),x1))
+#elif C14_GROUP == 6
+    // repeated leaf: negative(add(multiply(x0,x1),x1)); aliased leaves (view::alias gives the leaves explicit node ids)
     GRAPH("rep_neg_add_mul",   view::negative(view::add(view::multiply(x0, x1), x1)))
-#elif C14_GROUP == 4
-    // aliased leaves (view::alias gives the leaves explicit node ids)
-    if (prog == "al_add_mm" || prog == "al_neg_add_mul" || prog == "al_add_mul2") {
+    if (prog == "al_neg_sq") { auto a0 = view::alias(x0, 0_ct);
+        GRAPH("al_neg_sq",      view::negative(view::multiply(a0, a0))) }
+    if (prog == "al_add_mul2") { auto a0 = view::alias(x0, 0_ct); auto a1 = view::alias(x1, 1_ct); auto a2 = view::alias(x2, 2_ct);
+        GRAPH("al_add_mul2",    view::add(a0, view::multiply(a1, a2))) }
+#elif C14_GROUP == 7
+    if (prog == "al_add_mm" || prog == "al_neg_add_mul") {
         auto a0 = view::alias(x0, 0_ct); auto a1 = view::alias(x1, 1_ct); auto a2 = view::alias(x2, 2_ct);
         GRAPH("al_add_mm",      view::add(view::multiply(a0, a1), view::multiply(a1, a2)))
         GRAPH("al_neg_add_mul", view::negative(view::add(view::multiply(a0, a1), a1)))
-        GRAPH("al_add_mul2",    view::add(a0, view::multiply(a1, a2)))
     }
 #endif
     return "unknown-prog";
